@@ -86,6 +86,8 @@ pub enum WindowMode {
     Generous,
     /// declared size minus `n` bytes: must fail (sensitivity self-test of the oracle)
     Short(usize),
+    /// declared size plus `n` bytes: a larger scratch must serve as well (MAX clause)
+    Slack(usize),
 }
 
 #[derive(Clone, Debug)]
@@ -102,6 +104,7 @@ impl Window {
             WindowMode::ExactMisaligned(k) => ("exact_misaligned", *k),
             WindowMode::Generous => ("generous", 0),
             WindowMode::Short(k) => ("short", *k),
+            WindowMode::Slack(k) => ("slack", *k),
         };
         json!({"mode": m, "arg": a, "fill_seed": self.fill_seed})
     }
@@ -112,6 +115,7 @@ impl Window {
                 "exact" => WindowMode::Exact,
                 "exact_misaligned" => WindowMode::ExactMisaligned(a),
                 "generous" => WindowMode::Generous,
+                "slack" => WindowMode::Slack(a),
                 _ => WindowMode::Short(a),
             },
             fill_seed: v["fill_seed"].as_u64().unwrap_or(0),
@@ -137,6 +141,7 @@ impl Arena {
             WindowMode::ExactMisaligned(k) => (*k, declared + (64 - *k % 64) % 64),
             WindowMode::Generous => (0, generous),
             WindowMode::Short(k) => (0, declared.saturating_sub(*k)),
+            WindowMode::Slack(k) => (0, declared + *k),
         };
         let total = GUARD + mis + len + GUARD + 64;
         let mut buf: Vec<u8> = poulpy_hal::alloc_aligned::<u8>(total);
